@@ -12,6 +12,7 @@ KANI_NOTE = ("Trusted base: Kani 0.68/CBMC 6.11 with unwinding assertions; the h
              "alloc::fmt::format (listed in the evidence); harness crates take /repo crates as unmodified path dependencies.")
 KANI_TECH = "bounded model checking of the compiled Rust code (Kani/CBMC + CaDiCaL) over kani::any() inputs; failing harnesses replayed natively via concrete playback"
 KANI = {
+ "C14": ("other", "4 (C14)", "Commit preflights vs circuit acceptance. Public layer: Kani proves ensure_private_batch_compatible accepts exactly the header pairs the public wrapper can prove (C13's condition) with a real inner. Private layer: counterexample search only - solver models violating exactly one clause of the acceptance condition proved for the real circuit (C07) are shown UNSAT on the circuit IR and must be rejected by the real preflight (this found and now guards the repaired sum-check defect); other commit steps are outside."),
  "C24": ("model_checking", "4 (C24)", "u64 parsers of qp-wormhole-inputs: total (no panic) and accept exactly the reference layout predicate with field-exact results, for every vector of the covered lengths; felt-based parsers not covered."),
  "C25": ("model_checking", "4 (C25)", "Integer limb codecs and digest validation over their full input width; edge byte encoding round-trips (hence injective) for every string of length <= 9; 1 MiB cap rejection; quantization only near the cap."),
  "C26": ("model_checking", "4 (C26)", "Compact hash: accepts exactly 8-byte-aligned input whose limbs are all below p (lengths 0,7,8,(9,16,)24 symbolic content), hands exactly the limb sequence to the sponge (injective on the accepted domain), rejects > 1 MiB; the node-hash clauses of C26 are not covered."),
